@@ -101,3 +101,9 @@ package dynblock
 
 // verif:unit U18 props=C19
 // verif:taintscan expand_spec.go
+// The labels of a generated block are plain Go strings that downstream code may print: each one is
+// the content of a label value that was checked to carry no mark (a marked label is rejected).
+// verif:func (*expandSpec).newBlock
+//@ nosafety
+//@ ensures cleanLabels: ret0 != nil ==> (forall j int :: { ret0.Labels[j] } 0 <= j && j < len(ret0.Labels) ==> clean(ret0.Labels[j]))
+//@ loop 1 invariant forall j int :: { labels[j] } 0 <= j && j < len(labels) ==> clean(labels[j])
